@@ -5,67 +5,69 @@ _TYPES = ["SCHAR", "UCHAR", "SHORT", "USHORT", "INT", "UINT", "LONG", "ULONG", "
 prop("C10",
      harness="c10_imageio",
      runs={
-         # a probe case (automatic scaling for UINT/LONG/ULONG/DOUBLE) ends the asan process through UBSan (float-cast-overflow in
-         # stir::round): the stride keeps the number of process restarts per shard far below the driver's limit
-         "quick": [dict(flavour="asan", cases=1000, env={"VERIF_C10_PROBE_STRIDE": "2"}),
-                   dict(flavour="rel", cases=5000, env={"VERIF_C10_PROBE_STRIDE": "2"})],
-         "thorough": [dict(flavour="asan", cases=10000, env={"VERIF_C10_PROBE_STRIDE": "20"}),
-                      dict(flavour="rel", cases=100000, env={"VERIF_C10_PROBE_STRIDE": "2"})],
+         "quick": [dict(flavour="asan", cases=1000),
+                   dict(flavour="rel", cases=5000)],
+         "thorough": [dict(flavour="asan", cases=10000),
+                      dict(flavour="rel", cases=100000)],
      },
      min_nontrivial={"quick": 4000, "thorough": 80000},
      min_obs={"quick": dict({"images_written": 50000, "voxels_compared": 4000000, "positions_compared": 4000000,
+                             "data_files_decoded_independently": 50000,
                              "truncation_cases": 400, "truncation_lengths_tested": 15000, "truncations_rejected": 15000,
                              "dynamic_interfile_cases": 200, "dynamic_multi_cases": 200,
                              "parametric_interfile_cases": 200, "parametric_multi_cases": 200,
                              "exam_info_fields_compared": 80000, "exam_radionuclide_compared": 5000,
                              "exam_energy_window_compared": 4000, "exam_calibration_compared": 4000,
                              "byte_order_little": 20000, "byte_order_big": 20000,
-                             "scale_mode_auto": 15000, "scale_mode_larger": 12000, "scale_mode_larger-nice": 4000,
-                             "scale_mode_too-small": 1000, "geometry_negative_min_index": 1200,
+                             "scale_mode_auto": 30000, "scale_mode_larger": 12000, "scale_mode_larger-nice": 4000,
+                             "scale_mode_too-small": 2000, "geometry_negative_min_index": 1200,
                              "dist_huge": 150, "dist_tiny": 150, "dist_all-zero": 80, "dist_constant": 120, "dist_all-negative": 40,
-                             "unsigned_negatives_truncated": 200000, "probe_cases": 50},
+                             "dist_nonpositive-with-zero": 20, "scale_zero_images": 1000,
+                             "unsigned_negatives_truncated": 200000,
+                             "autoscale_UINT": 3000, "autoscale_LONG": 3000, "autoscale_ULONG": 3000, "autoscale_DOUBLE": 3000,
+                             "images_with_quotient_beyond_int_range": 8000, "double_output_unscaled": 3000,
+                             "header_scale_bit_exact": 50000},
                             **{"type_" + t: 4000 for t in _TYPES}),
               "thorough": dict({"images_written": 1200000, "voxels_compared": 100000000, "truncation_lengths_tested": 400000,
                                 "truncations_rejected": 400000, "dynamic_cases": 8000, "parametric_cases": 8000,
-                                "exam_info_fields_compared": 2000000, "probe_cases": 1000},
+                                "exam_info_fields_compared": 2000000, "images_with_quotient_beyond_int_range": 200000,
+                                "scale_zero_images": 20000},
                                **{"type_" + t: 100000 for t in _TYPES})},
      rule=("case = one generated VoxelsOnCartesianGrid<float> (sizes 1..12 per axis, minimum indices -30..20 incl. STIR's standard "
            "layout, voxel sizes 0.05..50, origins 0 / +-1000 voxels / sub-micron; values: positive, mixed sign, 1e25..1e30, 1e-30..1e-25, "
            "all zero, constants, all negative, non-positive with a zero, counts, sparse, 60 decades of dynamic range; ExamInfo with modality, "
            "patient position, 0/1 time frame, radionuclide (database or user-defined), energy window, calibration factor) written "
-           "with InterfileOutputFileFormat for all 10 NumericTypes x 2 settings (both byte orders; scale_to_write_data automatic, too "
-           "small, larger, larger with <=4 digits) and read back = 20 images per case (12 of 20 cases); or a DynamicDiscretisedDensity "
-           "of 1..4 frames / a ParametricVoxelsOnCartesianGrid through the Interfile and Multi formats (4 of 20; the Multi formats also "
-           "configured through their parser); or a truncation sweep of the data file at every length (<=160 bytes; else 48 lengths) "
-           "plus the missing file (2 of 20); or a probe of automatic scaling for UINT/LONG/ULONG/DOUBLE (every 2nd..40th of the "
-           "remaining 1 of 20).  non-trivial = image(s) with >= 2 voxels and non-constant values (truncation: >= 2 lengths); "
-           "distinct = distinct case descriptor"),
+           "with InterfileOutputFileFormat for all 10 NumericTypes x 2 settings (both byte orders; scale_to_write_data automatic - once "
+           "for every type - too small, larger, larger with <=4 digits, 1) and read back = 20 images per case (14 of 20 cases); or a "
+           "DynamicDiscretisedDensity of 1..4 frames / a ParametricVoxelsOnCartesianGrid (1 time frame) through the Interfile and Multi "
+           "formats (4 of 20; the Multi formats also configured through their parser); or a truncation sweep of the data file at every "
+           "length (<=160 bytes; else 48 lengths) plus the missing file (2 of 20).  non-trivial = image(s) with >= 2 voxels and "
+           "non-constant values (truncation: >= 2 lengths); distinct = distinct case descriptor"),
      technique=("runtime monitoring: write/read round trips of generated images through the real Interfile/Multi writers and the "
-                "read_from_file registry, compared voxel by voxel with the in-memory original and with an independent decoding of "
-                "the header text and the binary data file; fault injection by truncating the data file; under ASan/UBSan/asserts and -O2"),
+                "read_from_file registry, compared voxel by voxel with the in-memory original; the header text and the binary data file "
+                "are also decoded independently (stored integers: order / sign = no wrap-around; classification of a wrong value as "
+                "writer- or header-caused); fault injection by truncating the data file; under ASan/UBSan/asserts and -O2"),
      level_text=("tens of thousands (quick) to millions (thorough) of image files are written and read back; for every voxel the "
-                 "physical position is compared within a computed band (6 header digits + float32 round-off, 3-5 orders below "
-                 "half a voxel), the value bit-exactly for FLOAT output and, for scaled integers, (i) the stored integer against "
-                 "value/scale within half a step and (ii) the value read back within half a step, separating the effect of the "
-                 "6-digit scale factor of the header; unsigned truncation, sign, order and type range are checked on the stored "
-                 "integers; exam-info fields at the precision written; every truncation length must be rejected"),
-     level_note=("trusted: the ~150 lines of header/binary decoding and the comparison code in harness/c10_imageio.cxx; the "
-                 "scale factor used by the writer is obtained from the library's own find_scale_factor(); ECAT/ITK formats, "
-                 "non-VoxelsOnCartesianGrid densities, NaN/Inf voxels and |values| outside [1e-30,5e30] are not covered"),
-     assumptions=["the Interfile header carries voxel sizes, first-pixel offsets, times and exam-info numbers with 6 significant digits: "
-                  "positions are required within 1e-5*(|first pixel offset|+extent) + 2^-22*(sum of magnitudes entering the float32 "
-                  "computation); times/energies/half-life/calibration within 5.5e-6 relative",
+                 "physical position is compared within the computed float32 round-off of writer and reader (5-7 orders below "
+                 "half a voxel), the value bit-exactly for FLOAT output and for DOUBLE output without rescaling, and for scaled "
+                 "integers within half a quantisation step (the step the header declares) of the original; unsigned truncation, "
+                 "sign and order of the stored integers (no overflow) are checked on the decoded data file; exam-info numbers must "
+                 "come back within 1 float32 ulp (times: double precision); every truncation length must be rejected"),
+     level_note=("trusted: the ~150 lines of header/binary decoding and the comparison code in harness/c10_imageio.cxx; "
+                 "ECAT/ITK formats, non-VoxelsOnCartesianGrid densities, NaN/Inf voxels and |values| outside [1e-30,5e30] are not "
+                 "covered; dynamic/parametric Interfile images of modality NM are compared only up to the known finding "
+                 "'data-offsets-ignored-on-read'"),
+     assumptions=["positions are required within 2^-22*(sum of magnitudes entering the float32 computations of writer and reader): the "
+                  "reader re-normalises the index range and recomputes the origin from the first pixel offset in float32",
                   "for 32/64-bit integer output half a quantisation step is below float32 resolution: the value bands add the computed "
-                  "float32 round-off of the writer's division/rounding (2^-22*|quotient| steps) and of the reader's product (4*2^-24*|value|)",
+                  "float32 round-off of the writer's division/rounding (2^-22*|quotient| steps) and of the reader's product (4*2^-24*|value|); "
+                  "DOUBLE output with a scale factor other than 1 is required within 4*2^-24*|value| (float32 division and product)",
                   "patient rotation 'left'/'right' is written as Interfile 3.3's 'other' (modelled, counted as "
                   "patient_rotation_left_right_stored_as_other); an unset/Unknown radionuclide is not compared (the reader substitutes the "
                   "modality's default); a radionuclide whose name is in STIR's database is read back from the database",
                   "generator restrictions: energy window either unset or 0 < low < high (ExamInfo::has_energy_information needs low > 0); "
-                  "frame durations > 0; single images carry at most 1 time frame, Multi-parametric exactly 1 (single-image reader keeps the "
-                  "first frame only, documented by its warning); Interfile dynamic/parametric and Multi formats are native byte order only "
-                  "(documented; the request for the other order must be answered with native); truncation sweeps of dynamic files use a "
-                  "modality other than NM",
-                  "automatic scaling (scale_to_write_data=0) for UINT/LONG/ULONG/DOUBLE output is exercised only in dedicated probe cases "
-                  "(stir::round() returns int: undefined behaviour ends the sanitizer process); in all other cases these types get a "
-                  "scale that keeps value/scale inside int"],
+                  "frame durations > 0; single images carry at most 1 time frame, parametric images exactly 1 (single-image reader keeps the "
+                  "first frame only, documented by its warning; InterfileImageHeader documents multiple time frames OR multiple data types); "
+                  "Interfile dynamic/parametric formats document native byte order only: the byte order they answer is the one used for "
+                  "decoding; truncation sweeps of dynamic files use a modality other than NM"],
      )
